@@ -369,5 +369,7 @@ def hh_alphabet(args, seed):
     other = bytes([98 + (salt % 20)])[:L]
     if other not in keys:
         keys.append(other)
-    ng = [[stem + b"\x00" + stem, 2], [b"\x00\x00\x00", 1]]
+    # n <= L, n == 1, and n > max_key_len (windows are then truncated to their identity)
+    ng = [[stem + b"\x00" + stem, 2], [b"\x00\x00\x00", 1],
+          [(stem + b"\x00" + stem + other + stem)[: L + 3], L + 1]]
     return keys, ng
